@@ -165,7 +165,14 @@ func (s *Scheduler) Stop(ctx context.Context) error {
 // It is important that jobs are valid, so care is taken to validate the JobConfiguration before
 // it can be scheduled.
 func (s *Scheduler) AddJob(jobConfig *JobConfiguration) error {
-	err := s.verify(jobConfig)
+	// keep the configuration as submitted for storage. verify converts values of the
+	// error handlers in place (retryDelay seconds to nanoseconds), which must not be
+	// persisted: it would be converted again every time the job is loaded
+	submitted, err := json.Marshal(jobConfig)
+	if err != nil {
+		return err
+	}
+	err = s.verify(jobConfig)
 	if err != nil {
 		return err
 	}
@@ -176,7 +183,7 @@ func (s *Scheduler) AddJob(jobConfig *JobConfiguration) error {
 		return err
 	}
 
-	err = s.Store.StoreObject(server.JobConfigIndex, jobConfig.ID, jobConfig) // store it for the future
+	err = s.Store.StoreObject(server.JobConfigIndex, jobConfig.ID, json.RawMessage(submitted)) // store it for the future
 	if err != nil {
 		return err
 	}
